@@ -184,7 +184,7 @@ def _wrap(name, fn, mutating, has_self=True):
                 except Exception as e:
                     S.trace.append((name, outcome, "digest-error " + type(e).__name__, None))
             try:
-                _post(name, mutating, recv, pre_recv, pre_ops, outcome)
+                _post(name, mutating, recv, pre_recv, pre_ops, outcome, result)
             except Exception as e:  # the monitor must never change behaviour
                 S.violations.append({"monitor": "M1", "kind": "monitor-error", "op": name, "detail": repr(e)})
 
@@ -192,9 +192,60 @@ def _wrap(name, fn, mutating, has_self=True):
     return wrapper
 
 
-def _post(name, mutating, recv, pre_recv, pre_ops, outcome):
+def _result_kvs(x, depth=0, out=None):
+    """the mutable KnotVector objects reachable from a returned value"""
+    out = [] if out is None else out
+    if _is_curve(x):
+        out.append(x._BaseCurve__knotvector)
+    elif _is_kv(x):
+        out.append(x)
+    elif isinstance(x, (list, tuple)) and depth < 2:
+        for y in x[:64]:
+            _result_kvs(y, depth + 1, out)
+    return out
+
+
+def _alias_probe(name, result, recv, pre_recv, pre_ops):
+    """M7: what a non-mutating operation returns must not share mutable state with its operands. Every KnotVector
+    reachable from the result is reparametrised in place (shift, a public in-place operation that is always legal), the
+    operands are compared with their snapshots taken before the call, and the result is put back exactly."""
+    kvs = _result_kvs(result)
+    if not kvs:
+        return
+    sources = ([(recv, pre_recv)] if recv is not None and pre_recv is not None else []) + [(o, pre) for o, pre in pre_ops if o is not recv]
+    if not sources:
+        return
+    seen = set()
+    S.enabled = False
+    try:
+        for kv in kvs:
+            if id(kv) in seen:
+                continue
+            seen.add(id(kv))
+            saved = kv._KnotVector__internal
+            try:
+                kv.shift(1)
+            except Exception:
+                kv._KnotVector__internal = saved
+                continue
+            S.events[("M7.alias_probe", "done")] += 1
+            try:
+                for o, pre in sources:
+                    if _snap(o)[1] != pre[1]:
+                        _report("result-aliases-operand", name, {"what": "an in-place shift of the returned object's knot vector changed an operand",
+                                                                 "before": short(pre[1], 300), "after": short(_snap(o)[1], 300)})
+                        break
+            finally:
+                kv._KnotVector__internal = saved
+    finally:
+        S.enabled = True
+
+
+def _post(name, mutating, recv, pre_recv, pre_ops, outcome, result=None):
     if outcome == "StepBudgetExceeded":
         return
+    if outcome == "ok" and not mutating and result is not None:
+        _alias_probe(name, result, recv, pre_recv, pre_ops)
     if recv is not None and pre_recv is not None:
         post = _snap(recv)
         if outcome != "ok" and post[1] != pre_recv[1]:
